@@ -180,6 +180,9 @@ def match_known(known, pid, d):
         if k['kind'] == 'input':
             if d['case'].split()[0:2] + d['case'].split()[3:] == k['case'].split()[0:2] + k['case'].split()[3:]:
                 return k
+        elif k['kind'] == 'class':
+            if d['kind'] == 'KNOWN%d' % k['class_id']:
+                return k
         elif k['kind'] == 'site':
             if d['kind'] == 'PANIC' and re.search(k['panic_regex'], d['got']):
                 if 'op' not in k or d['case'].split()[0] in k['op']:
@@ -348,7 +351,7 @@ def run_check(pid, tier, seed):
             outs, verdicts, s = run_cases(lines, scratch, tag=sname)
             summ.update(s)
             evaluations += s['total']
-            streams_info.append(dict(stream=sname, cases=len(lines), ok=s['ok'], reject=s['reject'], panic=s['panic'], unknown=s['unknown'], secs=round(time.time() - ts, 1)))
+            streams_info.append(dict(stream=sname, cases=len(lines), ok=s['ok'], reject=s['reject'], panic=s['panic'], unknown=s['unknown'], known_class=s['known'], secs=round(time.time() - ts, 1)))
             # cell accounting on (a sample of) the executed lines
             stride = max(1, len(lines) // 60000)
             taken = 0
